@@ -68,6 +68,9 @@ class Section(dict):
         lst = sorted(self.items())
         for name, values in lst:
             for value in values:
+                # '$' is the substitution character: it has to be written
+                # as '$$' for the text to load back to the same value.
+                value = value.replace('$', '$$')
                 result.append(f'{pre}{name} {value}')
 
         if self.sections and self:
